@@ -418,8 +418,9 @@ SPECIAL_TEXTS = ["UTC", "Z", "America", "America/New_York", "Etc", "Etc/UTC", "U
                  "9223372036854775808", "(", "a{2,1}", "[", "\\"]
 MSG_NAMES = ["google.protobuf.Int64Value", "google.protobuf.UInt64Value", "google.protobuf.DoubleValue", "google.protobuf.BoolValue", "google.protobuf.StringValue",
              "google.protobuf.BytesValue", "google.protobuf.Int32Value", "google.protobuf.Struct", "google.protobuf.Value", "google.protobuf.ListValue", "google.protobuf.Any",
-             "google.protobuf.Timestamp", "google.protobuf.Duration", "google.protobuf.Empty", "undefined.Message", "TestAllTypes", "int", "x"]
-MSG_FIELDS = ["value", "value", "valu", "seconds", "nanos", "fields", "values", "a", "b", "null_value", "number_value", "string_value", "single_int64"]
+             "google.protobuf.Timestamp", "google.protobuf.Duration", "google.protobuf.Empty", "undefined.Message", "TestAllTypes", "int", "x",
+             "getSeconds", "getHours", "size", "matches", "string", "type", "bytes", "timestamp", "duration", "list", "map", "bool", "double", "uint"]
+MSG_FIELDS = ["value", "value", "value", "valu", "seconds", "nanos", "fields", "values", "a", "b", "null_value", "number_value", "string_value", "single_int64"]
 ESCAPES = ["\\U00000041", "\\U0001F431", "\\U00110000", "\\U0000D800", "\\u0041", "\\ud800", "\\u00e9", "\\x41", "\\xff", "\\X41", "\\101", "\\377", "\\777", "\\400", "\\8", "\\q",
            "\\n", "\\a", "\\`", "\\?", "\\\\", "\\'", '\\"', "\\u12", "\\U1234", "\\x4", "\\1", "\\12", "a", "é", "\U0001f431", " ", "\\0", "\\000", "\\x00"]
 
